@@ -222,6 +222,13 @@ def group_specs(m: dict, reduced: bool = False) -> list[GroupSpec]:
                 g = GroupSpec((BatSpec(soc, cap, be, 1000.0), BatSpec(soc + 15.0, 4000.0 - cap, 0.0, 600.0)), (InvSpec(ie, 1000.0),))
                 if consistent([g]):
                     out.append(g)
+        # two batteries behind one inverter whose exclusion zones are asymmetric in opposite ways ((-50, 200) and (-200, 50)):
+        # the group's zone takes the larger bound on each side, from different batteries
+        for soc in (40.0, 60.0):
+            g = GroupSpec((BatSpec(soc, 1000.0, 200.0, 1000.0, lower_scale=0.25), BatSpec(soc + 15.0, 3000.0, 50.0, 600.0, lower_scale=4.0)),
+                          (InvSpec(0.0, 1000.0),))
+            if consistent([g]):
+                out.append(g)
     return out
 
 
